@@ -1,4 +1,5 @@
 import Dtr.Proofs.Expand
+import Dtr.Proofs.ExpandClosed
 /-!
 # C05 — clock (`C`) and don't-care (`X`) inputs expand into the documented row sequences
 
@@ -124,5 +125,21 @@ example : numInputX exTc [.c, .x, .x, .num 1] = 2 ∧ blankOutOfRange exTc 4 = f
        ([.num 0, .num 0, .num 1, .x], false), ([.num 1, .num 0, .num 1, .x], false), ([.num 0, .num 0, .num 1, .num 1], true),
        ([.num 0, .num 1, .num 1, .x], false), ([.num 1, .num 1, .num 1, .x], false), ([.num 0, .num 1, .num 1, .num 1], true)] := by
   decide
+
+/-- **Closed form**: a row with `k` `X`s in input columns is executed once for each of the `2^k`
+assignments, in numerical order of the assignment number `j`, where the `t`-th such column from
+the left gets bit `t` of `j` — the left-most varies fastest, `0` before `1` — each assignment as its
+full clock triple.  (`expR`, the recursive specification the other theorems use, is this list.) -/
+theorem C05_closed_form (tc : TestCase) (r : CRow) :
+    expR tc (numInputX tc r.entries) r =
+      (List.range (2 ^ numInputX tc r.entries)).flatMap
+        (fun j => tripleOf tc { r with entries := assignFrom tc r.entries 0 j }) :=
+  expR_closed tc _ r rfl
+
+/-- what `assignFrom` does, spelled out on an example: `X 5 X` in three input columns, assignment 2 = binary 10:
+the left `X` gets bit 0 (= 0), the right `X` bit 1 (= 1) -/
+example (tc : TestCase) (h : ∀ i, entryIsInput tc i = true) :
+    assignFrom tc [.x, .num 5, .x] 0 2 = [.num 0, .num 5, .num 1] := by
+  simp [assignFrom, isInputX, h]
 
 end Dtr
